@@ -499,6 +499,27 @@ class ListBase(Base):
                 src = "x" + src
             yield self.mk(src, "<", ">", Cfg(), "multi-inline")
 
+    def empty_wrapper(self, rng, n):
+        """unwrap-blocks whose wrapper lines are empty or blank: their regions begin or end on a line-break byte"""
+        sp = gen.Spelling()
+        for i in range(n):
+            lines = [rng.choice(["a", "  b", "x = 1;"]) for _ in range(rng.randint(1, 2))]
+            for _ in range(rng.randint(1, 2)):
+                e = gen.El(rng.choice(["tl", "rm"]), rng.random() < 0.8)
+                e.unwrap = True
+                ind = rng.choice(["", "  ", "\t"])
+                lines.append(ind + sp.open_tag(e))
+                lines.append(rng.choice(["", "", ind + "{", "  ", "\t"]))
+                for _ in range(rng.randint(0, 3)):
+                    lines.append(ind + rng.choice(["  x", "y", "", "\tz"]))
+                lines.append(rng.choice(["", "", ind + "}", " ", "\t"]))
+                lines.append(ind + sp.close_tag(e))
+                lines.extend(rng.choice(["c", "", "  d"]) for _ in range(rng.randint(0, 2)))
+            src = "\n".join(lines) + ("\n" if rng.random() < 0.7 else "")
+            if src.startswith("\n"):
+                src = "x" + src
+            yield self.mk(src, "<", ">", Cfg(), "empty-wrapper")
+
     spec_name = None      # "C15" / "C17": Lean predicate evaluated on the implementation's regions
     spec_field = 0        # 0 = ready markers, 1 = all markers of the trace reply
 
@@ -566,6 +587,7 @@ class C15(ListBase):
     def cases(self, rng, tier):
         yield from self.docs(rng, tier, quick(tier, 4000, 150000))
         yield from self.multi_inline(rng, quick(tier, 600, 20000))
+        yield from self.empty_wrapper(rng, quick(tier, 400, 15000))
 
     def oracle(self, case, impl, spec):
         o, err = self.unpack(impl)
@@ -629,7 +651,7 @@ class C15(ListBase):
 class C16(ListBase):
     id = "C16"
     rule = ("one case = list and list_all in both formats on one document of the C15 domain, plus documents whose first byte is a line break, "
-            "plus the same documents with CRLF line ends; "
+            "plus the same documents with CRLF line ends, plus unwrap-blocks with empty or blank wrapper lines (regions beginning or ending on a line-break byte); "
             "reference rendering written independently in Python (start marker column, `{n:7} |` lines with tabs expanded, end marker under "
             "the last removed column, byte-based columns); the JSON must parse to objects {line_range, annotated_code_block, current_status} "
             "and each block must equal the pretty block with colour codes stripped; non-trivial = at least one item; a file starting with a "
@@ -639,6 +661,7 @@ class C16(ListBase):
         yield from self.docs(rng, tier, quick(tier, 3000, 120000))
         yield from self.docs(rng, tier, quick(tier, 600, 20000), leading_nl=True)
         yield from self.multi_inline(rng, quick(tier, 500, 20000))
+        yield from self.empty_wrapper(rng, quick(tier, 400, 15000))
         # the same documents with CRLF line ends
         for c in self.docs(rng, tier, quick(tier, 600, 20000)):
             m = c.meta
